@@ -111,6 +111,8 @@ let run (cases : case list) =
     let agree = ref (not !oracle_only) in
     let os = ref ledger_init in
     let oracle_live = ref true in
+    let o_posts : string list ref = ref [] in      (* posted handlers that have not run yet, from the observed events *)
+    let rec rm1 x = function [] -> [] | y :: r -> if x = y then r else y :: rm1 x r in
     List.iteri (fun i (op, impl) ->
       incr n_steps;
       let toks = split_ws op in
@@ -140,7 +142,16 @@ let run (cases : case list) =
       end;
       if !oracle_live then begin
         if impl = "PANIC" then begin report_oracle ci i "panic" op ""; oracle_live := false end
+        else if (match toks with "pollone" :: _ -> true | _ -> false) && !o_posts <> [] && kv_def t "ret" "" = "0:8" then begin
+          (* 25: a handler posted before this poll (from this goroutine: its wake-up was written synchronously) was not run *)
+          report_oracle ci i "25" op ("obs=[" ^ impl ^ "]"); oracle_live := false end
         else begin
+          List.iter (fun x ->
+            let n = String.length x in
+            if not (String.contains x '=') then begin
+              if n > 1 && x.[0] = 'P' then o_posts := String.sub x 1 (n - 1) :: !o_posts
+              else if n > 2 && String.sub x 0 2 = "cb" then o_posts := rm1 (List.hd (String.split_on_char ':' (String.sub x 2 (n - 2)))) !o_posts
+            end) t;
           let evs = List.filter_map (fun x -> if String.contains x '=' then None else parse_ev x) t in
           let (rn, re) = (match String.split_on_char ':' (kv_def t "ret" "0:0") with
               | [a; b] -> (z_of_string a, z_of_string b) | _ -> (Z0, Z0)) in
